@@ -34,7 +34,11 @@ RULE_ADDED = (
               'Round 8: the PIN object built by manager_ledger / manager_sgx load_pin from a pa'
               'rsed command line, a due change being either a missing file or -X with the file '
               'present; the hang-up scenario runs with a device that passes the checks precedin'
-              'g the retries check. ')
+              'g the retries check. '
+              ' '
+              'Round 9: the requests that run into the repair of an unacceptable device are of '
+              'every command; a device locked with one retry left must stop the manager within '
+              'three requests. ')
 RULE = RULE + " " + RULE_ADDED.strip()
 ASSUMPTIONS = [
     "simulated device + fake transports trusted",
